@@ -243,7 +243,7 @@ func (g *Rig) runTop(st Step) {
 		if !ok {
 			break // a wait expired: skip the rest, but resume and account for the parent
 		}
-		if reached && Blocks(st, n) {
+		if reached && g.m.Blocks(st, n) {
 			g.trace("  nested (blocks until resume) %s", n)
 			g.label("nested-blocked:" + n.Op)
 			blocked = append(blocked, pend{n, g.performAsync(n)})
@@ -291,6 +291,9 @@ func (g *Rig) arm(st Step) {
 	switch st.Split.Point {
 	case PtStart, PtInit:
 		g.sched.Arm(st.Split.Point, func(any) bool { return !soloBusy.Load() })
+	case PtWFlush, PtWComplete, PtWError:
+		target := st.Split.Target
+		g.sched.Arm(st.Split.Point, func(key any) bool { i, ok := key.(int); return ok && i == target })
 	default:
 		var want resolve.SubscriptionIdentifier
 		known := false
@@ -451,7 +454,7 @@ func (g *Rig) prepare(st Step) func() {
 		g.modelBegin(st, reached)
 		cctx, ccancel := context.WithCancel(context.WithValue(context.Background(), subKey{}, st.Sub))
 		rs := &rsub{idx: st.Sub, ctx: cctx, cancelClient: ccancel, sync: st.Sync,
-			w: &Writer{Sub: st.Sub, clock: g.clock, bus: g.bus, flushFailAt: st.FlushFailAt, hbFail: st.HBFail}}
+			w: &Writer{Sub: st.Sub, clock: g.clock, bus: g.bus, flushFailAt: st.FlushFailAt, hbFail: st.HBFail, park: g.sched.handler}}
 		g.subs = append(g.subs, rs)
 		rc := resolve.NewContext(cctx)
 		rc.ExecutionOptions.SendHeartbeat = st.HB
@@ -694,14 +697,14 @@ func (g *Rig) unmet(parked bool) string {
 		}
 		need := 0 // items produced by resolver goroutines (all of them while a call is parked)
 		for i, e := range s.Exp {
-			if !e.Optional && !e.Pending && (parked || e.Async) {
+			if !e.Optional && !e.Pending && e.Kind != CHeartbeat && (parked || e.Async) {
 				need = i + 1
 			}
 		}
 		if need > 0 {
 			n := 0
 			for _, e := range s.Exp[:need] {
-				if !e.Optional && !e.Pending {
+				if !e.Optional && !e.Pending && e.Kind != CHeartbeat {
 					n++
 				}
 			}
